@@ -716,6 +716,8 @@ package main
 
 //@ func redactFieldNamesFromPlanSummary
 //@   safety C07
+//@   props C15
+//@   ensures the-summary-is-rewritten-stage-by-stage {C15}: result == ite(planSummary == "COLLSCAN", planSummary, reReplaceAllFunc(planSummaryIndexKeys, planSummary, fnval("redactFieldNamesFromPlanSummary$1")))
 //@   assigns GoMaps
 //@   allocs Arr:Int, Arr:Str, Arr:Val, Arr:Slice
 
@@ -724,7 +726,11 @@ package main
 //@   props C15
 //@   assigns GoMaps
 //@   allocs Arr:Int, Arr:Str, Arr:Val, Arr:Slice
-//@   loop 1 invariant frame: unchangedBelow("Arr:Str") && base(keys) > old(heapTop) && base(keys) <= heapTop
+//@   loop 1 invariant frame: unchangedBelow("Arr:Str") && base(keys) > old(heapTop) && base(keys) <= heapTop && redactedString == old(redactedString)
+//@   requires A-RE-the-argument-is-a-match-of-the-index-scan-pattern: ixscanStage(stage)
+//@   loop 1 invariant keys-so-far {C15}: len(keys) == splitCount(substr(stage, open+1, end), ",") && KAcc(redactedString, splitSeq(substr(stage, open+1, end), ","), selems(keys), off(keys), _idx, len(keys))
+//@   ensures every-index-key-is-replaced-by-its-pseudonym-where-it-stands {C15}: result == psStage(redactedString, stage)
+//@   ensures prefix-unchanged: redactedString == old(redactedString)
 
 //@ func ParsePlanSummary
 //@   safety C07
